@@ -8,10 +8,10 @@ from .facts import callee_name, callee_names, short
 class FnView:
     """A MIR body with its logical CFG."""
 
-    def __init__(self, prog, key):
+    def __init__(self, prog, key, f=None):
         self.prog = prog
         self.key = key
-        self.f = prog.fn(key)
+        self.f = f if f is not None else prog.fn(key)
         self.name = self.f["name"]
         self.blocks = self.f["blocks"]
         self.n = len(self.blocks)
